@@ -271,3 +271,25 @@ Fixpoint verdicts_ok (br : broker) (h : list rlog) : Prop :=
 
 Definition accepted_entry (l : rlog) : bool :=
   match rl_verdict l with Some v => accepted v | None => false end.
+
+(* ---------------------------------------------------------------- the transaction manager under any use *)
+
+Inductive txop := XStamp (k : tpk) | XBump.
+(* the stamps handed out by a sequence of getAndIncrementSequenceNumber / bumpEpoch calls *)
+Fixpoint txn_issue (t : txn) (ops : list txop) : list stamp :=
+  match ops with
+  | [] => []
+  | XStamp k :: r => let '((sq, ep), t') := txn_stamp t k in (k, ep, sq) :: txn_issue t' r
+  | XBump :: r => txn_issue (txn_bump t) r
+  end.
+Definition txn_of (s : state) : txn := (g_epoch s, g_seqs s).
+
+(* consecutive batches: each starts one past the previous one's last sequence *)
+Fixpoint chain (prev_last : Z) (bs : list batch) : Prop :=
+  match bs with
+  | [] => True
+  | b :: r => ba_first b = prev_last + 1 /\ chain (ba_last b) r
+  end.
+
+(* what identifies a record on the wire *)
+Definition stamp4 (m : msg) : Z * Z * Z * bool := (m_id m, m_seq m, m_epoch m, m_hasseq m).
